@@ -110,6 +110,7 @@ def main(tier):
                         f.write(json.dumps(e) + "\n")
         paths.append(pth)
     files += paths
+    _, dn = funcs.survey(chk, files, lambda ev: len(ev.get("a", ev.get("b", []))) > 60, maxlen=300)
     out = funcs.judge_files(chk, "TraceDnsWire", "TraceDnsWire.cfg", files, "wire",
                             sigfn=lambda ev: "%s:%s:%s" % (ev.get("e"), ev.get("qt", ""), ev.get("codec", ev.get("who", ""))))
     chk.cov["evaluations"] = out["events"]
@@ -117,9 +118,9 @@ def main(tier):
     chk.cov["aux_events"] = sum(len(e) for e in aux)
     chk.cov["aux_kinds"] = sorted({e["e"] for evs in aux for e in evs})
     chk.cov["writer_datagrams"] = sum(n for p, n, rc, e in prod)
-    chk.cov["distinct_nontrivial"] = chk.cov["writer_datagrams"] + chk.cov["aux_events"]
+    chk.cov["distinct_nontrivial"] = dn
     chk.cov["rule"] = ("one evaluation = one emitted datagram (or answer/query pair) parsed by TLC with DnsWire.tla; non-trivial = "
-                       "answers of the real writer across type x codec x size and the auxiliary NS/A answers")
+                       "distinct datagrams longer than 60 bytes")
     chk.assumptions += ["TLC/JVM trusted"] + common.ASSUME_SIM[:1]
     return chk.finish()
 
